@@ -24,6 +24,12 @@ pub fn run(args: &[String]) -> i32 {
             .unwrap_or(false);
         let ir_json = req.get("ir_json").and_then(|v| v.as_bool()).unwrap_or(false);
         let disc = req.get("disc").and_then(|v| v.as_bool()).unwrap_or(false);
+        // {"trace": ["mono", "dce", "gensym"]}: events of the compiler's verification hooks, by kind
+        let trace: Vec<String> = req
+            .get("trace")
+            .and_then(|v| v.as_array())
+            .map(|a| a.iter().filter_map(|x| x.as_str().map(|s| s.to_string())).collect())
+            .unwrap_or_default();
         // {"text": .., "dir": ..}: compile the text as <dir>/main.gom without writing it (dir should exist and hold no .gom files)
         let (path, src) = if let Some(t) = req.get("text").and_then(|t| t.as_str()) {
             let dir = req.get("dir").and_then(|d| d.as_str()).unwrap_or("/nonexistent");
@@ -43,7 +49,13 @@ pub fn run(args: &[String]) -> i32 {
         let src_copy = src.clone();
         let r = guarded(Duration::from_millis(limit_ms), move || {
             let discovery = if disc { discovery_of(&p2, &src) } else { Value::Null };
-            let mut out = compile_one(&p2, &src, dumps, core_json, ir_json);
+            if !trace.is_empty() {
+                hooks_start();
+            }
+            let mut out = compile_one(&p2, &src, dumps, core_json, ir_json, trace.iter().any(|k| k == "mono"));
+            if !trace.is_empty() {
+                out["trace"] = Value::from(hooks_take(&trace));
+            }
             if disc {
                 out["discovery"] = discovery;
             }
@@ -99,7 +111,7 @@ fn discovery_of(path: &std::path::Path, src: &str) -> Value {
     }
 }
 
-fn compile_one(p2: &std::path::Path, src: &str, dumps: bool, core_json: bool, ir_json: bool) -> Value {
+fn compile_one(p2: &std::path::Path, src: &str, dumps: bool, core_json: bool, ir_json: bool, mono_fns: bool) -> Value {
     {
         {
             match compile(p2, src) {
@@ -115,6 +127,9 @@ fn compile_one(p2: &std::path::Path, src: &str, dumps: bool, core_json: bool, ir
                         out["ast"] = Value::from(c.ast.to_pretty(WIDTH));
                         let ctx = compiler::pprint::hir_pprint::HirPrintCtx::new(&c.hir_table);
                         out["hir"] = Value::from(c.hir.to_pretty(&ctx, WIDTH));
+                    }
+                    if mono_fns {
+                        out["mono_fns"] = Value::from(c.mono.toplevels.iter().map(|f| f.name.clone()).collect::<Vec<_>>());
                     }
                     if core_json {
                         out["core_json"] = serde_json::to_value(&c.core).unwrap_or(Value::Null);
@@ -147,4 +162,19 @@ pub fn ir_export(_c: &compiler::pipeline::pipeline::Compilation) -> Value {
 #[cfg(feature = "ir")]
 pub fn ir_export(c: &compiler::pipeline::pipeline::Compilation) -> Value {
     crate::ir_export::ir_export(c)
+}
+
+#[cfg(feature = "hooks")]
+fn hooks_start() {
+    crate::trace_hooks::start();
+}
+#[cfg(feature = "hooks")]
+fn hooks_take(kinds: &[String]) -> Vec<Value> {
+    crate::trace_hooks::take(kinds)
+}
+#[cfg(not(feature = "hooks"))]
+fn hooks_start() {}
+#[cfg(not(feature = "hooks"))]
+fn hooks_take(_kinds: &[String]) -> Vec<Value> {
+    vec![serde_json::json!({"ev": "unavailable"})]
 }
